@@ -113,17 +113,20 @@ impl VehicleType for PHEV {
         state: &mut Vec<StateVar>,
         state_model: &StateModel,
     ) -> Result<(), TraversalModelError> {
-        let (electrical_energy, _) = self.best_case_energy(distance)?;
+        // the best case energy is in the energy unit of the rate, which need not be the battery's
+        let (electrical_energy, electrical_energy_unit) = self.best_case_energy(distance)?;
+        let battery_delta =
+            electrical_energy_unit.convert(&electrical_energy, &self.battery_energy_unit);
         state_model.add_energy(
             state,
             &PHEV::ELECTRIC_FEATURE_NAME.into(),
             &electrical_energy,
-            &self.battery_energy_unit,
+            &electrical_energy_unit,
         )?;
         vehicle_ops::update_soc_percent(
             state,
             PHEV::SOC_FEATURE_NAME,
-            &electrical_energy,
+            &battery_delta,
             &self.battery_capacity,
             state_model,
         )?;
